@@ -113,6 +113,9 @@ MUTS = [
     "none", "flip_sig_bit", "flip_msg_bit", "other_key", "R=0", "R>=p", "R_nonresidue",
     "s=0", "s=n", "s=n+small", "s=2^256-1", "pk_not_on_curve", "pk>=p", "pk=0",
     "random_sig", "negated_nonce", "neg_s", "R_other_point", "swap_R_s", "pk=0_forged",
+    # the signature is handed over as an OBJECT built with the public constructor SchnorrSignature(R, s):
+    # the verdict has to be the BIP340 verdict on the 64 bytes that object stands for
+    "obj_valid", "obj_odd_R_unnormalised_nonce", "obj_negated_R",
 ]
 
 
@@ -201,7 +204,42 @@ def build(case):
     return pk, msg, sig
 
 
+def check_verify_object(case, ctx):
+    d, msg, mut = case["d"], case["msg"], case["mut"]
+    ctx.label("mut:" + mut)
+    ctx.nontrivial()
+    Pt = ec.mul(d)
+    pk = ec.xonly(Pt)
+    dd = d if Pt[1] % 2 == 0 else N - d
+    k = case["k2"]
+    R = ec.mul(k)
+    if mut == "obj_odd_R_unnormalised_nonce":
+        if R[1] % 2 == 0:
+            k, R = N - k, ec.neg(R)  # the nonce point has ODD y and is used as it is
+    elif R[1] % 2:
+        k, R = N - k, ec.neg(R)      # BIP340: even y
+    e = int.from_bytes(ec.tagged_hash("BIP0340/challenge", ec.xonly(R) + pk + msg), "big") % N
+    s = (k + e * dd) % N
+    if mut == "obj_negated_R":
+        R = ec.neg(R)                # same x, same 64 bytes as the valid signature
+    sig64 = ec.xonly(R) + s.to_bytes(32, "big")
+    want = ec.schnorr_verify(pk, msg, sig64)
+    assert want == (mut != "obj_odd_R_unnormalised_nonce")
+    ctx.label("ref_valid" if want else "ref_invalid")
+    obj = SchnorrSignature(S256Point(R[0], R[1]), s)
+    st_, got = attempt(S256Point.parse_xonly(pk).verify_schnorr, msg, obj)
+    if want:
+        require(st_ == "ok" and got is True, f"verify/rejects_valid:{mut}", f"{st_}:{got!r} sig={sig64.hex()}")
+    else:
+        require(not (st_ == "ok" and got), f"verify/accepts_invalid:{mut}",
+                f"pk={pk.hex()} msg={msg.hex()} sig={sig64.hex()} (R has odd y)")
+    ser = attempt(obj.serialize)
+    require(ser == ("ok", sig64), "verify/object_serialisation", f"{ser!r}")
+
+
 def check_verify(case, ctx):
+    if case["mut"].startswith("obj_"):
+        return check_verify_object(case, ctx)
     t = build(case)
     if t is None:
         raise Discard("s+n>=2^256")
